@@ -1030,7 +1030,7 @@ Proof.
   intros H. unfold pixel2point, kij, pinhole. cbn [nth].
   destruct H as [-> | ->].
   - replace (0 =? zero)%num with true by (symmetry; apply Reqb_true; reflexivity). reflexivity.
-  - replace (0 =? zero)%num with true by (symmetry; apply Reqb_true; reflexivity). apply orb_true_r.
+  - replace (0 =? zero)%num with true by (symmetry; apply Reqb_true; reflexivity). now rewrite orb_true_r.
 Qed.
 
 (* batched versions *)
